@@ -117,6 +117,14 @@ def value_mutants(doc):
                     if newk not in mm:
                         mm[newk] = copy.deepcopy(mm[k0])
                         yield "key-added:%s %s" % (key, where), m
+                    if (key + ":type") in f and f[key + ":type"] == "Count":
+                        # one more bin that holds nothing: still one more bin
+                        m = copy.deepcopy(doc)
+                        mm = grammar.get_path(m, path + [key])
+                        newk = str(int(k0) + 2000003) if d[2] == "int" else k0 + "_empty"
+                        if newk not in mm:
+                            mm[newk] = 0.0
+                            yield "key-added-empty:%s %s" % (key, where), m
                     if d[1][0] == "tagged" and f[key][k0]["type"] != "Count":
                         m = copy.deepcopy(doc)
                         grammar.set_path(m, path + [key, k0], {"type": "Count", "data": 0.0})
@@ -195,8 +203,8 @@ class C09(Scenario):
                    "quantity names / functions are not corrupted (not content)", "a corrupted document the library refuses to "
                    "load is skipped and counted (C15's business)"]
     expected_faults = ["doc_value_corrupt", "dup_record", "lost_record", "weight_swap", "bigint_off_by_one"]
-    expected_probes = ["pair_differs_one_ulp", "pair_differs_key", "pair_differs_trailing", "clean_pair_equal", "tolerance_pair", "equal_after_history", "built_stack", "built_fraction",
-                       "bigint_visible"]
+    expected_probes = ["pair_differs_one_ulp", "pair_differs_key", "pair_differs_trailing", "clean_pair_equal", "tolerance_pair", "equal_after_history", "built_stack", "built_fraction", "tolerant_then_exact",
+                       ]
 
     def generate(self, rng, tier, profile):
         sp, recs, fills, fills2 = gen_base(rng, tier, max_fill=14)
@@ -360,6 +368,13 @@ class C09(Scenario):
             if kind.startswith("trailing") or kind.startswith("shorter"):
                 w.bump("probe_pair_differs_trailing")
             prim = kind.split(" ")[1].split("@")[0]
+            if ":ulp" in kind:
+                try:
+                    util.relativeTolerance = util.absoluteTolerance = 1e-9
+                    call(lambda: a.value == b.value)  # may well be True: a tolerance widens the comparison
+                    w.bump("probe_tolerant_then_exact")
+                finally:
+                    util.relativeTolerance, util.absoluteTolerance = old
             self._must_differ(a.value, b.value, kind, prim, 0, {"mutation": kind, "clean": ndoc, "corrupted": bdoc.value})
         w.record_step({"op": "enumerate", "n": units}, {0: observe.obs_hash(ndoc)})
         R["shape"] = "%s|%d" % (specmod.shape_key(sp), units)
